@@ -19,7 +19,7 @@
     Not covered by a theorem: the rendering of errors and lexer states (Display / Debug), which the
     correspondence run exercises under catch_unwind on every returned and collected error and every
     lexer state; panics inside dependencies; stack exhaustion. *)
-From Tephra Require Import MetricsSpec CLexer LexerFacts Run Peg RunCore RunTotal RunBracket RunSafe.
+From Tephra Require Import MetricsSpec CLexer LexerFacts Run Peg RunCore RunTotal RunBracket RunSafe RunTerm.
 
 Theorem C01_lexer_operations_never_panic :
   forall m, 1 <= tabw m -> forall t, wf_text t ->
@@ -80,6 +80,23 @@ Proof.
   destruct (run fuel g lx0 c st) as [[v l|e| |] s]; cbn [fst]; try discriminate. contradiction.
 Qed.
 Print Assumptions C01_from_a_new_lexer.
+
+(** "returns either a success or a parse error": with enough fuel (nesting depth + bytes left + 3)
+    the answer is a value or an error - neither a panic nor an exhausted fuel *)
+Theorem C01_success_or_parse_error :
+  forall m, 1 <= tabw m -> forall t, wf_text t ->
+  forall F g, pre_ok g = true -> rep_ok m t g ->
+  forall lx ys c st, Inv m t lx ys -> tdepth g + rem t lx + 3 <= F ->
+  (exists v lx' st', run F g lx c st = (ROk v lx', st')) \/ (exists e st', run F g lx c st = (RErr e, st')).
+Proof.
+  intros m Htab t Ht F g Hp Hr lx ys c st HI HF.
+  pose proof (run_safe m Htab t Ht F g Hp lx ys c st HI) as Hs.
+  pose proof (run_terminates m Htab t Ht F g Hp Hr lx ys c st HI HF) as Ht'.
+  destruct (run F g lx c st) as [[v l|e| |] s]; cbn [safe tm] in Hs, Ht'; try contradiction.
+  - left. exists v, l, s. reflexivity.
+  - right. exists e, s. reflexivity.
+Qed.
+Print Assumptions C01_success_or_parse_error.
 
 (** the preconditions: exactly the documented ones *)
 Theorem C01_preconditions_meaning :
